@@ -18,7 +18,7 @@ Wd(S) == Cardinality(S) = 1
 MCInit == si \in Sets /\ tree = NoTree /\ picked = FALSE
 \* two steps, so that the checks of one schema's trees are spread over all workers
 Pick == /\ ~picked /\ tree = NoTree /\ UNCHANGED <<si, picked>>
-        /\ \E t \in Trees(si, Wd(si)) \cup SizedTrees(si, IF Cardinality(si) >= ManyMin THEN SizesMany ELSE Sizes, {1, 2, 3}) : tree' = t
+        /\ \E t \in Trees(si, Wd(si)) \cup SizedTrees(si, IF Cardinality(si) >= ManyMin \/ \E i \in si : i > SizedFullMax THEN SizesMany ELSE Sizes, {1, 2, 3}) : tree' = t
 Check == ~picked /\ tree # NoTree /\ picked' = TRUE /\ UNCHANGED <<si, tree>>
 MCNext == Pick \/ Check
 Sn == Schema(si)
@@ -74,6 +74,19 @@ XNsOK ==
          o == DecX(Sn, p.e) IN
      /\ p.ok /\ ~p.trailing /\ o.cls \in Classes
      /\ o.cls \in {"tree", "either"} => Conforms(Sn, o.t) = "" /\ NotAltered(Sn, o.t, XLitsOf(p.e))
+\* every document with a value / content of the wrong shape has a verdict; a predicted tree conforms and is unaltered
+ShapesOK ==
+  /\ \A rfc \in {TRUE, FALSE} : \A m \in JShapeMutants(EncJ(rfc, Sn, tree)) :
+        LET p == JParse(m)
+            o == DecJ(rfc, Sn, p.v) IN
+        /\ p.ok /\ o.cls \in Classes
+        /\ o.cls \in {"tree", "either"} => Conforms(Sn, o.t) = "" /\ NotAltered(Sn, o.t, JLits(m))
+  /\ \A m \in XShapeMutants(EncX(Sn, tree)) :
+        LET p == XParse(m)
+            o == DecX(Sn, p.e) IN
+        /\ p.ok /\ ~p.trailing /\ o.cls \in Classes
+        /\ o.cls \in {"tree", "either"} => Conforms(Sn, o.t) = "" /\ NotAltered(Sn, o.t, XLitsOf(p.e))
+MutantsShape == (picked /\ Cardinality(si) <= MutMax /\ FullTrees(si) # {} /\ tree = BigTree(si)) => ShapesOK
 MutantsNs == (picked /\ Cardinality(si) <= MutMax /\ FullTrees(si) # {} /\ tree = BigTree(si)) => XNsOK
 MutantsRFC == (picked /\ IsFull) => JMutOK(TRUE)
 MutantsJSON == (picked /\ IsFull) => JMutOK(FALSE)
